@@ -41,7 +41,7 @@ struct Mtx { const void* key; Thr* owner; int count; unsigned gen; };
 static Thr g_pool[MAXT]; static int g_nthr; static Thr* g_cur; static volatile bool g_active;
 static thread_local Thr* self;
 static Params P; static Stats ST; static fatal_fn g_fatal;
-static bool g_seq, g_faults, g_fair, g_record;
+static bool g_seq, g_faults, g_fair, g_record, g_unint;
 static uint64_t g_rng, g_frng; static uint64_t g_now;
 static const int MTXN = 1 << 16; static Mtx g_mtx[MTXN]; static unsigned g_mtx_gen = 1;
 static struct sigaction g_handlers[65]; static bool g_has_handler[65]; static bool g_any_handler;
@@ -222,7 +222,7 @@ static Thr* strategy_pick(Thr* me, bool self_ok, bool must_other, Thr** c, int n
 static Thr* choose_next(Thr* me, bool self_ok, bool must_other, int ctid, int cop, int cord) {
     Thr* c[MAXT]; Thr* cs[MAXT];
     int n = collect(me, c, false), ns = collect(me, cs, true);
-    if (me && self_ok && (me->spin >= SPIN_T || frozen(me))) must_other = true;
+    if (!g_unint && me && self_ok && (me->spin >= SPIN_T || frozen(me))) must_other = true;   // (an uninterruptible section reads many hazard slots in a row: that is not a spin)
     Thr* pick = nullptr;
     if (g_record) {
         if (n > 0) pick = strategy_pick(me, self_ok, must_other, c, n);
@@ -359,6 +359,7 @@ uint64_t op_return() {
     return stamp;
 }
 void sequential(bool on) { g_seq = on; }
+void uninterruptible(bool on) { g_seq = on; g_unint = on; if (!on && self) { self->spin = 0; self->ro_streak = 0; } }
 void faults_enabled(bool on) { g_faults = on; }
 long decide(int dkind, int permille, long val_if_fired) { Thr* s = self; if (!g_active || !s) return 0; ++s->ord; return fault_decide(s, dkind, permille, val_if_fired); }
 int thread_count() { return g_nthr; }
@@ -405,7 +406,7 @@ void begin(const Params& p) {
     g_rng = p.seed * 0x9E3779B97F4A7C15ULL + 0x1234567; if (!g_rng) g_rng = 1;
     g_frng = (p.seed ^ 0xA5A5A5A5DEADBEEFULL) * 0xD1342543DE82EF95ULL + 1; if (!g_frng) g_frng = 1;
     for (int i = 0; i < 8; i++) { rnd(); frnd(); }
-    g_now = 1600000000ULL * 1000000000ULL; g_seq = true; g_faults = true; g_fair = false;
+    g_now = 1600000000ULL * 1000000000ULL; g_seq = true; g_unint = false; g_faults = true; g_fair = false;
     if (++g_mtx_gen == 0) { memset(g_mtx, 0, sizeof g_mtx); g_mtx_gen = 1; } memset(g_has_handler, 0, sizeof g_has_handler); g_any_handler = false; memset(g_bar, 0, sizeof g_bar);
     g_prio_low = 999; g_pct_n = 0;
     if (p.strategy == S_PCT) { g_pct_n = p.pct_depth - 1; if (g_pct_n > 8) g_pct_n = 8; if (g_pct_n < 0) g_pct_n = 0; for (int i = 0; i < g_pct_n; i++) g_pct_change[i] = 1 + rnd() % (uint64_t)(p.expected_steps > 0 ? p.expected_steps : 1); }
@@ -590,15 +591,18 @@ int pthread_detach(pthread_t pt) {
     for (int i = 1; i < g_nthr; i++) if (pthread_equal(g_pool[i].real, pt)) return 0;   // the joiner thread joins it
     return real_pthread_detach(pt);
 }
+// Simulated thread ids are a function of (run seed, thread index): code that hashes thread ids (CachedFreeList's cache slot,
+// std::hash<std::thread::id>) then sees different slot constellations in different runs instead of the same one for ever.
+static inline uintptr_t tid_base() { return 0x1000 + (uintptr_t)(P.seed & 0xff) * 0x100000; }
 pthread_t pthread_self(void) {
     REAL(pthread_self); Thr* s = self; if (!g_active || !s) return real_pthread_self();
-    return (pthread_t)(uintptr_t)(0x1000 + s->id * 0x100);
+    return (pthread_t)(uintptr_t)(tid_base() + s->id * 0x100);
 }
 int pthread_kill(pthread_t pt, int sig) {
     REAL(pthread_kill); if (!sim()) return real_pthread_kill(pt, sig);
     uintptr_t v = (uintptr_t)pt;
-    if (v >= 0x1000 && (v - 0x1000) % 0x100 == 0 && (v - 0x1000) / 0x100 < (uintptr_t)g_nthr) {
-        Thr* t = &g_pool[(v - 0x1000) / 0x100]; Thr* s = self; ++s->ord; s->nsb = 0;
+    if (v >= tid_base() && (v - tid_base()) % 0x100 == 0 && (v - tid_base()) / 0x100 < (uintptr_t)g_nthr) {
+        Thr* t = &g_pool[(v - tid_base()) / 0x100]; Thr* s = self; ++s->ord; s->nsb = 0;
         if (sig && t->st != FINISHED && !t->exit_flag) {
             bool dup = false; for (int i = 0; i < t->nsigs; i++) if (t->sigs[i].sig == sig) dup = true;   // non-RT signals coalesce
             if (!dup && t->nsigs < MAXSIG) {
